@@ -283,7 +283,92 @@ func replayBind(args []string) (any, error) {
 		return nil
 	})
 	nestedVariadic(sum)
+	freshDefaults(sum)
 	return sum, err
+}
+
+// freshDefaults: an omitted optional parameter takes its declared default on every call - also when the default is a list or a map
+// and an earlier call's value was changed in place afterwards (by the script, or by the callee), and although the parameter list was
+// validated once at registration (CheckFnParamDef) on the very Param objects used for binding.
+func freshDefaults(sum *Summary) {
+	mk := func(def func() any) *runtimev2.Fn {
+		ps := []*runtimev2.Param{{Name: "a"}, {Name: "opts", Val: def}}
+		if err := runtimev2.CheckFnParamDef(ps); err != nil {
+			sum.miss("bind-defaults:sig", map[string]any{"problem": err.Error()})
+		}
+		return &runtimev2.Fn{
+			CallCheck: func(ctx *runtimev2.Task, e *ast.CallExpr) *errchain.PlError {
+				return runtimev2.CheckPassParam(ctx, e, ps)
+			},
+			Call: func(ctx *runtimev2.Task, e *ast.CallExpr) *errchain.PlError {
+				if _, err := runtimev2.GetParam(ctx, e, ps, 0); err != nil {
+					return err
+				}
+				x, err := runtimev2.GetParam(ctx, e, ps, 1)
+				if err != nil {
+					return err
+				}
+				t := ast.Map
+				if _, ok := x.([]any); ok {
+					t = ast.List
+				}
+				ctx.Regs.ReturnAppend(runtimev2.V{V: x, T: t})
+				return nil
+			},
+		}
+	}
+	var seen []string
+	showPs := []*runtimev2.Param{{Name: "xs", Variable: true}}
+	fns := map[string]*runtimev2.Fn{
+		"fm": mk(func() any { return map[string]any{} }),
+		"fl": mk(func() any { return []any{int64(0)} }),
+		"show": {
+			CallCheck: func(ctx *runtimev2.Task, e *ast.CallExpr) *errchain.PlError {
+				return runtimev2.CheckPassParam(ctx, e, showPs)
+			},
+			Call: func(ctx *runtimev2.Task, e *ast.CallExpr) *errchain.PlError {
+				xs, err := runtimev2.GetParam(ctx, e, showPs, 0)
+				if err != nil {
+					return err
+				}
+				for _, v := range xs.([]any) {
+					seen = append(seen, showVal(v))
+				}
+				return nil
+			},
+		},
+	}
+	text := `m = fm(1)
+m["k"] = 9
+n = fm(2)
+o = fm(3, opts={"x": 1})
+p = fm(4)
+show(m, n, o, p)
+l = fl(1)
+l[0] = 5
+l2 = fl(2)
+for i = 0; i < 2; i = i + 1 {
+q = fm(i)
+show(q)
+q["i"] = i
+}
+show(l, l2)`
+	sum.Evaluations++
+	sc, err := engine.ParseV2("defaults.p", text, fns)
+	if err != nil {
+		sum.miss("bind-defaults:load", map[string]any{"script": text, "load_err": err.Error()})
+		return
+	}
+	if e := sc.Run(nil); e != nil {
+		sum.miss("bind-defaults:run", map[string]any{"script": text, "run_err": e.Error()})
+		return
+	}
+	want := []string{showVal(map[string]any{"k": int64(9)}), showVal(map[string]any{}), showVal(map[string]any{"x": int64(1)}), showVal(map[string]any{}),
+		showVal(map[string]any{}), showVal(map[string]any{}), showVal([]any{int64(5)}), showVal([]any{int64(0)})}
+	if fmt.Sprint(seen) != fmt.Sprint(want) {
+		sum.miss("bind-defaults", map[string]any{"script": text, "want": want, "got": seen,
+			"note": "every call that omits the parameter gets the declared default, untouched by what happened to an earlier call's value"})
+	}
 }
 
 // nestedVariadic: calls nested inside the variadic tail of other calls, after earlier calls in the same run. A trailing variadic
